@@ -1,8 +1,9 @@
 #!/bin/sh
-# tools/run_seed.sh <seed ID> <check ID> [extra check args]: apply seeded change to /repo, run a check, undo
+# tools/run_seed.sh <seed ID> <check ID> [extra check args]: run a check against a scratch worktree of /repo HEAD
+# with the seeded change applied (never touches /repo itself)
 S=$1; C=$2; shift 2
-cd /repo && git diff --quiet || { echo "/repo not clean"; exit 9; }
-git -C /repo apply /verif/seeded/$S/patch.diff || exit 8
-cd /verif && ./check $C --no-evidence "$@" 2>&1 | grep -E "^\[|VIOLATION|INCONCLUSIVE|MISMATCH" | cut -c1-260
-echo "exit=$?"
-git -C /repo checkout -- .
+W=/tmp/seedwt_$S_$$
+git -C /repo worktree add -q --detach $W HEAD || exit 9
+git -C $W apply /verif/seeded/$S/patch.diff || { git -C /repo worktree remove --force $W; exit 8; }
+cd /verif && FORD_REPO=$W ./check $C --no-evidence "$@" 2>&1 | grep -a -E "^\[|VIOLATION|INCONCLUSIVE|MISMATCH" | cut -c1-260
+git -C /repo worktree remove --force $W
